@@ -215,6 +215,228 @@ fn gen_value(r: &mut Rng, path: &str, canon: bool, base: &SPDC) -> f64 {
   }
 }
 
+/// Crystals given by refractive-index expressions (`CrystalType::Expr`; l = wavelength in µm, T = °C − 20):
+/// the formula of a built-in crystal and genuinely different ones — positive uniaxial (ne > no: the beam
+/// labelled "ordinary" sees the direction-dependent index), weakly birefringent, biaxial.
+/// (name, kind, crystal theta_deg, crystal phi_deg)
+pub const EXPR_CRYSTALS: [(&str, &str, f64, f64); 6] = [
+  // the BBO expression of the crate's documentation (negative uniaxial)
+  (
+    "expr-bbo",
+    r#"{"no":"sqrt(2.7359+0.01878/(l^2-0.01822)-0.01354*l^2) - 9.3e-6 * T","ne":"sqrt(2.3753+0.01224/(l^2-0.01667)-0.01516*l^2) - 16.6e-6 * T"}"#,
+    45.0,
+    0.0,
+  ),
+  // YVO4 (positive uniaxial, strong)
+  (
+    "expr-yvo4",
+    r#"{"no":"sqrt(3.77834 + 0.069736/(l^2 - 0.04724) - 0.0108133*l^2)","ne":"sqrt(4.59905 + 0.110534/(l^2 - 0.04813) - 0.0122676*l^2)"}"#,
+    45.0,
+    0.0,
+  ),
+  // crystalline quartz (positive uniaxial, weak)
+  (
+    "expr-quartz",
+    r#"{"no":"sqrt(1 + 0.663044*l^2/(l^2-0.0036) + 0.517852*l^2/(l^2-0.011236) + 0.175912*l^2/(l^2-0.014161) + 0.565380*l^2/(l^2-78.216336) + 1.675299*l^2/(l^2-430.230564))","ne":"sqrt(1 + 0.665721*l^2/(l^2-0.0036) + 0.503511*l^2/(l^2-0.011236) + 0.214792*l^2/(l^2-0.014161) + 0.539173*l^2/(l^2-77.299264) + 1.807613*l^2/(l^2-388.09))"}"#,
+    30.0,
+    15.0,
+  ),
+  // a positive uniaxial crystal with a temperature term
+  (
+    "expr-positive-t",
+    r#"{"no":"sqrt(4.0 + 0.05/(l^2 - 0.03) - 0.01*l^2) + 1.2e-5 * T","ne":"sqrt(5.5 + 0.08/(l^2 - 0.03) - 0.012*l^2) + 4.5e-5 * T"}"#,
+    60.0,
+    200.0,
+  ),
+  // KTP-like biaxial
+  (
+    "expr-biaxial-ktp",
+    r#"{"nx":"sqrt(3.0065 + 0.03901/(l^2 - 0.04251) - 0.01327*l^2)","ny":"sqrt(3.0333 + 0.04154/(l^2 - 0.04547) - 0.01408*l^2)","nz":"sqrt(3.3134 + 0.05694/(l^2 - 0.05658) - 0.01682*l^2)"}"#,
+    90.0,
+    0.0,
+  ),
+  // BiBO-like biaxial, off the principal planes
+  (
+    "expr-biaxial-bibo",
+    r#"{"nx":"sqrt(3.0740 + 0.0323/(l^2 - 0.0316) - 0.01337*l^2)","ny":"sqrt(3.1685 + 0.0373/(l^2 - 0.0346) - 0.01750*l^2)","nz":"sqrt(3.6545 + 0.0511/(l^2 - 0.0371) - 0.0226*l^2)"}"#,
+    57.0,
+    33.0,
+  ),
+];
+
+pub const PM_TYPES: [&str; 5] = ["Type0_o_oo", "Type0_e_ee", "Type1_e_oo", "Type2_e_eo", "Type2_e_oe"];
+
+/// a setup on expression crystal `k` with phase-matching type `pm`; `variant` 0: collinear, idler "auto",
+/// poling off; 1: non-collinear signal, explicit idler, poling on
+pub fn expr_base(k: usize, pm: &str, variant: usize) -> Option<SPDC> {
+  let (_, kind, ctheta, cphi) = EXPR_CRYSTALS[k % EXPR_CRYSTALS.len()];
+  let js = if variant == 0 {
+    format!(
+      r#"{{"crystal":{{"kind":{},"pm_type":"{}","phi_deg":{},"theta_deg":{},"length_um":2000,"temperature_c":20}},
+      "pump":{{"wavelength_nm":775,"waist_um":100,"bandwidth_nm":5.35,"average_power_mw":1}},
+      "signal":{{"wavelength_nm":1550,"phi_deg":0,"theta_deg":0,"waist_um":100,"waist_position_um":"auto"}},
+      "idler":"auto","deff_pm_per_volt":1}}"#,
+      kind, pm, cphi, ctheta
+    )
+  } else {
+    format!(
+      r#"{{"crystal":{{"kind":{},"pm_type":"{}","phi_deg":{},"theta_deg":{},"length_um":3500,"temperature_c":41.5}},
+      "pump":{{"wavelength_nm":775,"waist_um":150,"bandwidth_nm":1.2,"average_power_mw":12}},
+      "signal":{{"wavelength_nm":1500,"phi_deg":25,"theta_deg":1.25,"waist_um":70,"waist_position_um":-900}},
+      "idler":{{"wavelength_nm":1603.4483,"phi_deg":205,"theta_deg":1.4,"waist_um":80,"waist_position_um":-850}},
+      "periodic_poling":{{"poling_period_um":37.5}},"deff_pm_per_volt":3.2}}"#,
+      kind, pm, cphi, ctheta
+    )
+  };
+  match guard(|| SPDC::from_json(&js)) {
+    Some(Ok(s)) => Some(s),
+    _ => None,
+  }
+}
+
+/// The Snell clause of the statement on a swept setup, through the public getters only: the beam's stored
+/// internal angle θi, the index n the crate uses for that beam along its stored direction
+/// (`Beam::refractive_index`), and the external angle n·sin θi refracts to.
+/// (internal_deg, index, refracts_to_deg, snell_residual = sin|v| − n·sin θi)
+fn snell_of(s: &SPDC, beam: &str, v_deg: f64) -> Option<(f64, f64, f64, f64)> {
+  let b: &Beam = if beam == "signal" { &s.signal } else { &s.idler };
+  guard(|| {
+    let ti = b.theta_internal().value_unsafe;
+    let n = *b.refractive_index(b.frequency(), &s.crystal_setup);
+    let x = n * ti.sin();
+    (ti.to_degrees(), n, x.asin().to_degrees(), v_deg.abs().to_radians().sin() - x)
+  })
+}
+
+/// One point of a sweep through `<beam>.theta_external_deg`, either followed by a path that leaves the
+/// beam's refraction alone (`lead` = None: crystal length re-set to its value) or preceded by a path that
+/// changes what the refraction depends on (`lead` = crystal angle / temperature, the beam's wavelength or
+/// azimuth: the external-angle setter then sees the changed setup).
+/// S: the stored internal angle is the Snell-equivalent of the requested angle, sin θe = n(θi)·sin θi, to the
+///    resolution of the configuration field (1e-4°);
+/// K: the stored angle and its read-back against the model of the Snell inversion (`sweep_snell`).
+fn snell_case(ctx: &mut Ctx, name: &str, base: &SPDC, beam: &str, v: f64, lead: Option<(&str, f64)>) {
+  let path = format!("{}.theta_external_deg", beam);
+  let len_um = base.crystal_setup.length.value_unsafe / 1e-6;
+  let (p1, v1, p2, v2): (&str, f64, &str, f64) = match lead {
+    Some((p, x)) => (p, x, path.as_str(), v),
+    None => (path.as_str(), v, "crystal.length_um", len_um),
+  };
+  let pol = pol_tok(if beam == "signal" { base.signal.polarization() } else { base.idler.polarization() });
+  let det = format!("base={} pm_type={:?} polarization={} p1={} v1={:?} p2={} v2={:?}", name, base.crystal_setup.pm_type, pol, p1, v1, p2, v2);
+  ctx.count(&format!("snell/{}/{}", if name.contains("expr") { "expr" } else { "builtin" }, pol));
+  let swept = match sweep_one(base, p1, v1, p2, v2) {
+    Some(Ok(s)) => s,
+    None => {
+      ctx.s("C18.frame", false, "setter/panic", &det);
+      return;
+    }
+    Some(Err(e)) => {
+      ctx.s("C18.frame", false, "setter/rejected-known-path", &format!("err={:?} {}", e, det));
+      return;
+    }
+  };
+  match snell_of(&swept, beam, v) {
+    Some((ti, n, back, resid)) => {
+      let ok = ti >= 0.0 && (back - v.abs()).abs() <= 1e-4;
+      ctx.s(
+        "C18.frame",
+        ok,
+        "setter/theta_external_deg/snell",
+        &format!("path={} value={:?} internal_deg={:?} index={:?} refracts_to_deg={:?} snell_residual={:e} {}", path, v, ti, n, back, resid, det),
+      );
+    }
+    None => ctx.s("C18.frame", false, "setter/theta_external_deg/snell-panic", &format!("path={} value={:?} {}", path, v, det)),
+  }
+  // K: principal indices of the swept setup's crystal at the beam's wavelength are passed in
+  let b: &Beam = if beam == "signal" { &swept.signal } else { &swept.idler };
+  let cs = &swept.crystal_setup;
+  if let Some(n) = guard(|| *cs.crystal.get_indices(b.vacuum_wavelength(), cs.temperature)) {
+    let back = guard(|| b.theta_external(cs).value_unsafe);
+    ctx.k(
+      "sweep_snell",
+      &format!(
+        "{} {} {} {} {} {} {} {}",
+        fl(n.x),
+        fl(n.y),
+        fl(n.z),
+        fl(cs.theta.value_unsafe),
+        fl(cs.phi.value_unsafe),
+        fl(b.phi().value_unsafe),
+        pol,
+        fl((v * DEG).value_unsafe.abs())
+      ),
+      &format!("{} {}", fl(b.theta_internal().value_unsafe), back.map(fl).unwrap_or_else(|| "PANIC".into())),
+    );
+  }
+}
+
+/// independent Snell solve by bisection on [0°, 90°] with the index the crate reports for the beam
+fn snell_bisect(s: &SPDC, beam: &str, v_deg: f64) -> Option<f64> {
+  guard(|| {
+    let target = v_deg.abs().to_radians().sin();
+    let mut b: Beam = if beam == "signal" { s.signal.clone().into() } else { s.idler.clone().into() };
+    let (mut lo, mut hi) = (0.0f64, std::f64::consts::FRAC_PI_2);
+    for _ in 0..200 {
+      let mid = 0.5 * (lo + hi);
+      b.set_theta_internal(mid * RAD);
+      let n = *b.refractive_index(b.frequency(), &s.crystal_setup);
+      if target - n * mid.sin() > 0.0 {
+        lo = mid;
+      } else {
+        hi = mid;
+      }
+    }
+    0.5 * (lo + hi)
+  })
+}
+
+/// swept spectrum values of (<beam>.theta_external_deg × crystal.length_um) against setups constructed by
+/// hand: internal angle from the independent bisection, length written directly
+fn snell_values_case(ctx: &mut Ctx, name: &str, base: &SPDC, beam: &str, amax: f64, nx: usize) {
+  let integ = Integrator::Simpson { divs: 10 };
+  let path = format!("{}.theta_external_deg", beam);
+  let len_um = base.crystal_setup.length.value_unsafe / 1e-6;
+  let steps = Steps2D((0.0, amax, nx), (len_um, 1.5 * len_um, 2));
+  let det = format!("base={} pm_type={:?} p1={} p2=crystal.length_um x=(0.0,{:?},{}) y=({:?},{:?},2)", name, base.crystal_setup.pm_type, path, amax, nx, len_um, 1.5 * len_um);
+  let swept = guard(|| SPDCIter::try_new(base.clone(), path.as_str(), "crystal.length_um", steps).map(|it| it.jsi_values(integ)));
+  let want: Option<Vec<f64>> = guard(|| {
+    (0..2 * nx)
+      .map(|k| {
+        let mut s = base.clone();
+        let ti = snell_bisect(base, beam, lin(0.0, amax, nx, k % nx)).unwrap_or(f64::NAN);
+        if beam == "signal" {
+          s.signal.set_theta_internal(ti * RAD);
+        } else {
+          s.idler.set_theta_internal(ti * RAD);
+        }
+        s.crystal_setup.length = lin(len_um, 1.5 * len_um, 2, k / nx) * MICRO * M;
+        jsi_center(&s, integ)
+      })
+      .collect()
+  });
+  match (swept, want) {
+    (Some(Ok(a)), Some(b)) => {
+      let peak = b.iter().fold(0.0f64, |m, x| m.max(x.abs()));
+      let close = |x: f64, y: f64| x == y || (x - y).abs() <= 1e-6 * x.abs().max(y.abs()) + 1e-9 * peak || (x.is_nan() && y.is_nan());
+      let bad = if a.len() != b.len() { Some(0) } else { (0..a.len()).find(|k| !close(a[*k], b[*k])) };
+      ctx.count(if b.iter().filter(|x| **x > 1e-3 * peak).count() * 2 > b.len() { "snell-values/mostly-lit" } else { "snell-values/mostly-dark" });
+      match bad {
+        None => ctx.s("C18.values", true, "sweep/jsi-values-external-angle", &det),
+        Some(k) => ctx.s(
+          "C18.values",
+          false,
+          "sweep/jsi-values-external-angle",
+          &format!("k={} swept={:e} individually={:e} count={} {}", k, a.get(k).copied().unwrap_or(f64::NAN), b.get(k).copied().unwrap_or(f64::NAN), a.len(), det),
+        ),
+      }
+    }
+    (None, _) => ctx.s("C18.values", false, "sweep/jsi-values-panic", &det),
+    (_, None) => ctx.count("snell-values/by-hand-panic"),
+    _ => ctx.s("C18.values", false, "sweep/jsi-values-failed", &det),
+  }
+}
+
 fn base_setups(ctx: &mut Ctx) -> Vec<(String, SPDC)> {
   let mut v: Vec<(String, SPDC)> = vec![];
   if let Some(s) = guard(SPDC::default) {
@@ -262,6 +484,20 @@ fn base_setups(ctx: &mut Ctx) -> Vec<(String, SPDC)> {
     let d = gen_valid(&mut ctx.rng);
     if let Some(Ok(s)) = guard(|| SPDC::from_json(d.json().to_string())) {
       v.push((format!("random{}", tries), s));
+    }
+  }
+  // expression crystals: a negative uniaxial formula, a positive uniaxial and a biaxial one (all six in
+  // thorough), phase-matching type and variant seeded
+  let picks: Vec<usize> = if ctx.thorough {
+    (0..EXPR_CRYSTALS.len()).collect()
+  } else {
+    vec![ctx.rng.below(1), 1 + ctx.rng.below(3), 4 + ctx.rng.below(2)]
+  };
+  for k in picks {
+    let pm = *ctx.rng.pick(&PM_TYPES);
+    let variant = ctx.rng.below(2);
+    if let Some(s) = expr_base(k, pm, variant) {
+      v.push((format!("{}/{}/{}", EXPR_CRYSTALS[k].0, pm, variant), s));
     }
   }
   v
@@ -796,6 +1032,14 @@ fn resonance_shapes(thorough: bool) -> Vec<(usize, usize)> {
   v
 }
 
+/// the float `n` representable steps away from `x` (away from zero for n > 0)
+fn ulp_step(x: f64, n: i64) -> f64 {
+  if n == 0 || x == 0.0 || !x.is_finite() {
+    return x;
+  }
+  f64::from_bits((x.to_bits() as i64 + n) as u64)
+}
+
 fn lin(a: f64, b: f64, n: usize, i: usize) -> f64 {
   if n <= 1 {
     a
@@ -912,7 +1156,45 @@ fn shape_case(ctx: &mut Ctx, name: &str, base: &SPDC, p1: &str, p2: &str, nx: us
     None => ctx.s("C18.values", false, &format!("{}-panic", sig), &format!("route={} {}", route, det)),
     Some(Err(_)) => ctx.s("C18.values", false, &format!("{}-failed", sig), &format!("route={} {}", route, det)),
   };
+  // A grid point is a real number; its float image is fixed only to a few ulp (`Steps2D` and `lin` round
+  // differently), and on ill-conditioned setups (long counter-propagating crystals: 1 ulp of the crystal angle
+  // moves the value by 1e-6) that matters.  A cell that differs from the by-hand value at `lin`'s float is
+  // therefore also compared with the by-hand values at the neighbouring floats (±2 ulp per coordinate);
+  // which point a cell holds is pinned to 1e-12 by the order check above.
+  let refine = |got: &Option<Result<Vec<f64>, String>>, want: &mut Vec<f64>, value: &dyn Fn(&SPDC) -> f64| -> usize {
+    let mut accepted = 0;
+    if let Some(Ok(g)) = got {
+      if g.len() == want.len() {
+        let bad: Vec<usize> = (0..g.len()).filter(|k| !close(g[*k], want[*k])).take(40).collect();
+        for k in bad {
+          let (x0, y0) = (lin(a1, b1, nx, k % nx), lin(a2, b2, ny, k / nx));
+          'search: for dx in [0i64, -1, 1, -2, 2] {
+            for dy in [0i64, -1, 1, -2, 2] {
+              let w = guard(|| {
+                let mut s = base.clone();
+                apply_by_hand(&mut s, p1, ulp_step(x0, dx));
+                apply_by_hand(&mut s, p2, ulp_step(y0, dy));
+                value(&s)
+              });
+              if let Some(w) = w {
+                if close(g[k], w) {
+                  want[k] = w;
+                  accepted += 1;
+                  break 'search;
+                }
+              }
+            }
+          }
+        }
+      }
+    }
+    accepted
+  };
+  let mut want = want;
   let got = guard(|| make(base).map(|it| it.jsi_values(integ)));
+  if refine(&got, &mut want, &|s: &SPDC| jsi_center(s, integ)) > 0 {
+    ctx.count("shape/ulp-neighbour-of-grid-point");
+  }
   compare(ctx, "sweep/shape/jsi-values", got, &want);
   let lit = want.iter().filter(|x| **x > 0.).count();
   ctx.count(if 2 * lit > want.len() { "shape/mostly-lit" } else if lit > 0 { "shape/partly-lit" } else { "shape/dark-or-empty" });
@@ -938,8 +1220,16 @@ fn shape_case(ctx: &mut Ctx, name: &str, base: &SPDC, p1: &str, p2: &str, nx: us
         })
         .collect()
     });
-    if let Some(wantn) = wantn {
+    if let Some(mut wantn) = wantn {
       let gotn = guard(|| make(base).map(|it| it.jsi_values_normalized(integ)));
+      refine(&gotn, &mut wantn, &|s: &SPDC| {
+        let j = spdcalc::jsa_raw(s.signal.frequency(), s.idler.frequency(), s, integ).norm_sqr();
+        if j == 0. {
+          0.
+        } else {
+          j * *(spdcalc::jsi_normalization(s.signal.frequency(), s.idler.frequency(), s) / centre)
+        }
+      });
       compare(ctx, "sweep/shape/jsi-values-normalized", gotn, &wantn);
     }
   }
@@ -1295,5 +1585,58 @@ pub fn run(ctx: &mut Ctx) {
       let (p1, p2) = *ctx.rng.pick(&pairs);
       shape_case(ctx, &name, &base, p1, p2, nx, ny, cheap, false);
     }
+  }
+
+  // ---- external angles are stored as the Snell-equivalent internal angle: every base, every expression
+  // crystal × every phase-matching type (both polarizations on both beams), both external-angle paths,
+  // angles from 0 to 60°, alone and after a setter that changes what the refraction depends on
+  let mut snell_bases: Vec<(String, SPDC)> = bases.clone();
+  for k in 0..EXPR_CRYSTALS.len() {
+    for (j, pm) in PM_TYPES.iter().enumerate() {
+      let variant = (k + j + ctx.rng.below(2)) % 2;
+      match expr_base(k, pm, variant) {
+        Some(s) => snell_bases.push((format!("{}/{}/{}", EXPR_CRYSTALS[k].0, pm, variant), s)),
+        None => ctx.s("C18.frame", false, "setup/expression-crystal-rejected", &format!("crystal={} pm_type={} variant={}", EXPR_CRYSTALS[k].0, pm, variant)),
+      }
+    }
+  }
+  let nrep = if ctx.thorough { 4 } else { 1 };
+  for (name, base) in snell_bases.iter() {
+    for beam in ["signal", "idler"] {
+      let b: &Beam = if beam == "signal" { &base.signal } else { &base.idler };
+      let lam = b.vacuum_wavelength().value_unsafe * 1e9;
+      let cth = base.crystal_setup.theta.value_unsafe / DEG.value_unsafe;
+      let cph = base.crystal_setup.phi.value_unsafe / DEG.value_unsafe;
+      let tc = base.crystal_setup.temperature.value_unsafe - 273.15;
+      let bph = b.phi().value_unsafe / DEG.value_unsafe;
+      for _ in 0..nrep {
+        // alone: a fixed ladder point and a random angle
+        let v = *ctx.rng.pick(&[0.0, 0.125, 1.0, 5.0, 10.0, 20.0, 30.0, 45.0, 60.0]);
+        snell_case(ctx, name, base, beam, v, None);
+        let v = (ctx.rng.range(0.05, 60.0) * 1e3).round() / 1e3;
+        snell_case(ctx, name, base, beam, v, None);
+        // after a setter the refraction depends on
+        let v = (ctx.rng.range(0.5, 50.0) * 1e3).round() / 1e3;
+        let wl = format!("{}.wavelength_nm", beam);
+        let ph = format!("{}.phi_deg", beam);
+        let lead: (&str, f64) = match ctx.rng.below(5) {
+          0 => ("crystal.theta_deg", (cth + ctx.rng.range(-25.0, 25.0)).clamp(1.0, 179.0)),
+          1 => ("crystal.phi_deg", (cph + ctx.rng.range(10.0, 80.0)) % 360.0),
+          2 => ("crystal.temperature_c", tc + ctx.rng.range(20.0, 120.0)),
+          3 => (wl.as_str(), lam * ctx.rng.range(1.02, 1.25)),
+          _ => (ph.as_str(), (bph + ctx.rng.range(20.0, 300.0)) % 360.0),
+        };
+        snell_case(ctx, name, base, beam, v, Some(lead));
+      }
+    }
+  }
+  // swept spectrum values through the external-angle paths against setups constructed by hand with an
+  // independent Snell solve (angles inside the collection cone)
+  let nv = if ctx.thorough { snell_bases.len() } else { 8 };
+  for i in 0..nv {
+    let (name, base) = if ctx.thorough { snell_bases[i].clone() } else { ctx.rng.pick(&snell_bases[bases.len()..]).clone() };
+    let beam = if ctx.rng.coin() { "signal" } else { "idler" };
+    let amax = *ctx.rng.pick(&[0.25, 0.5, 1.0]);
+    snell_values_case(ctx, &name, &base, beam, amax, 3);
   }
 }
